@@ -155,19 +155,39 @@ def shared_case(rng):
             'pairs': sorted([p, q, sorted(c)[0]] for (p, q), c in ref.items())}
 
 
+def listed_case(rng):
+    """three levels, the base graph handed over as a graph object whose nodes were put in in another order than their
+    keys (`graph-reinserted`), the cut at the single bond between a marked substituent and the first written atom of the
+    double bond, fragments in writing order (seeded change C15-12: without the renumbering after every level the atoms
+    follow the listing order of the caller's graph and cis/trans flips).  Geometry = pysmiles' reading of the uncut
+    SMILES (contract P0)."""
+    import pysmiles
+    x = rng.choice(['C', 'CC', 'F', 'Cl', 'OC'])
+    z = rng.choice(['C', 'Cl', 'Br', 'CO', 'CC(F)Cl'])
+    m, n = rng.choice('/\\'), rng.choice('/\\')
+    plain = f'{x}{m}C=C{n}{z}'
+    with lib.quiet():
+        ref = found_pairs(pysmiles.read_smiles(plain, explicit_hydrogen=True))
+    mid = rng.choice(['{#P=[#A][$],#Q=[$][#B]}', '{#P=[#A][>],#Q=[<][#B]}'])
+    s = '{[#P][#Q]}.%s.{#A=%s%s[$],#B=[$]%sC=C%s%s}' % (mid, x, m, m, n, z)
+    return {'kind': 'stereo-listed', 's': s, 'plain': plain, 'cuts': ['listed'], 'all_atom': True, 'legacy': True, 'e3': False,
+            'ctor': 'graph-reinserted', 'how': 'on three levels with the base graph handed over as a graph object',
+            'pairs': sorted([p, q, sorted(c)[0]] for (p, q), c in ref.items())}
+
+
 def shared_oracle(ctx, case, steps, ctor_err):
     fid = 'E3' if case.get('e3') else None
     if steps is None or steps[-1]['result'] != 'ok':
-        ctx.fail(dict(case), f'{case["plain"]} written with a shared atom is rejected', finding=fid)
+        ctx.fail(dict(case), f'{case["plain"]} written {case.get("how", "with a shared atom")} is rejected', finding=fid)
         return
     got = sorted([a, b, sorted(c)[0] if len(c) == 1 else sorted(c)] for (a, b), c in found_pairs(steps[-1]['fine_graph']).items())
     if got != case['pairs']:
-        ctx.fail(dict(case), f'{case["plain"]} written with a shared atom: cis/trans relations {got}, the molecule that was written has '
+        ctx.fail(dict(case), f'{case["plain"]} written {case.get("how", "with a shared atom")}: cis/trans relations {got}, the molecule that was written has '
                              f'{case["pairs"]}', finding=fid)
 
 
 def oracle_for(case):
-    return {'stereo-diene': diene_oracle, 'stereo-shared': shared_oracle}.get(case.get('kind'), oracle)
+    return {'stereo-diene': diene_oracle, 'stereo-shared': shared_oracle, 'stereo-listed': shared_oracle}.get(case.get('kind'), oracle)
 
 
 def classify(case):
@@ -212,6 +232,12 @@ def run(ctx):
         case = shared_case(rng_s)
         suites.run_resolve_case(ctx, 'stereo-shared', case, oracle=shared_oracle)
         ctx.feature(case['cuts'][0] + (':E3' if case['e3'] else ''))
+    # three levels through from_graph with the caller's nodes listed out of key order (seeded change C15-12)
+    rng_l = ctx.rng('stereo-listed')
+    for _ in range(ctx.budget(24, 300)):
+        case = listed_case(rng_l)
+        suites.run_resolve_case(ctx, 'stereo-listed', case, oracle=shared_oracle)
+        ctx.feature('listed-three-levels')
 
 
 def corpus_case(ctx, payload):
